@@ -87,7 +87,10 @@ def contracts():
 
 
 def namespace():
+    import numpy as np
+    import pandas as pd
     ns = {k: v for k, v in vars(specref).items() if not k.startswith("_")}
+    ns.update(np=np, pd=pd)
     from replay import scopes
     ns.update(getattr(scopes, "SPEC_EXTRA", {}))
 
@@ -223,6 +226,7 @@ def run_case(qualname, recipes, caller=None):
             spec_args[k] = spec_args[v["of"]]
     ns = namespace()
     ns.update(spec_args)
+    ns["local"] = lambda name: args.get(name)
     rep = {"qualname": qualname, "violations": [], "in_domain": True, "outcome": None}
     try:
         for name, ex in c.requires:
@@ -493,11 +497,80 @@ def cmd_radius(req):
     return out
 
 
+def cmd_frame(req):
+    """Frame replay for a function that need not have a contract: call it on the inputs of its frame scope and compare
+    snapshots of the arguments, of the function's default-argument objects and of the package's module-level state."""
+    import copy
+    import random
+    from replay import scopes
+    q = req["qualname"]
+    gen = scopes.FRAME_SCOPES.get(q)
+    if req.get("_only") is not None:
+        gen = lambda rng: iter([req["_only"]])
+    if gen is None:
+        return {"found": False, "note": f"no frame scope for {q}"}
+    fn = resolve(q)
+    rng = random.Random(req.get("seed", 0))
+    tried = 0
+    for recipes in gen(rng):
+        tried += 1
+        if tried > req.get("budget", 20):
+            break
+        args = {k: build(v) for k, v in recipes.items()}
+        before = {k: copy.deepcopy(v) for k, v in args.items()}
+        dflt_before = copy.deepcopy(getattr(fn, "__defaults__", None))
+        kwd_before = copy.deepcopy(getattr(fn, "__kwdefaults__", None))
+        mod_before = _module_state()
+        try:
+            fn(**args)
+            outcome = "returned"
+        except BaseException as e:
+            outcome = f"raised {type(e).__name__}: {str(e)[:120]}"
+        viol = []
+        for k, b in before.items():
+            if not _unchanged(b, args[k]):
+                viol.append(f"frame[argument {k}] modified")
+        if not _deep_eq_any(dflt_before, getattr(fn, "__defaults__", None)) or not _deep_eq_any(kwd_before, getattr(fn, "__kwdefaults__", None)):
+            viol.append("frame[default-argument object] modified")
+        for name, (b, obj) in mod_before.items():
+            try:
+                cur = _module_state_value(name)
+                if cur is not obj or not _unchanged(b, cur):
+                    viol.append(f"frame[module state {name}] modified")
+            except Exception:
+                pass
+        if viol:
+            return {"found": True, "tried": tried, "args": recipes, "violations": viol, "outcome": outcome}
+    return {"found": False, "tried": tried}
+
+
+def _deep_eq_any(a, b):
+    import numpy as np
+    if a is None or b is None:
+        return a is b
+    if isinstance(a, (tuple, list)):
+        return isinstance(b, (tuple, list)) and len(a) == len(b) and all(_deep_eq_any(x, y) for x, y in zip(a, b))
+    if isinstance(a, dict):
+        return isinstance(b, dict) and a.keys() == b.keys() and all(_deep_eq_any(a[k], b[k]) for k in a)
+    if isinstance(a, np.ndarray):
+        return isinstance(b, np.ndarray) and a.shape == b.shape and bool((a == b).all())
+    try:
+        return bool(a == b)
+    except Exception:
+        return True
+
+
+def frame_replay_main(qualname, recipes):
+    out = cmd_frame({"qualname": qualname, "budget": 1, "_only": recipes})
+    print(json.dumps(out, default=str, indent=1))
+    sys.exit(1 if out.get("found") else 0)
+
+
 if __name__ == "__main__":
     cmd = sys.argv[1]
     req = json.load(open(sys.argv[2])) if len(sys.argv) > 2 else json.load(sys.stdin)
     try:
-        out = {"case": cmd_case, "falsify": cmd_falsify, "radius": cmd_radius}[cmd](req)
+        out = {"case": cmd_case, "falsify": cmd_falsify, "radius": cmd_radius, "frame": cmd_frame}[cmd](req)
     except Exception:
         out = {"error": traceback.format_exc()}
     json.dump(out, sys.stdout, default=str)
